@@ -2,9 +2,9 @@
 statements in Props/Source_<group>.lean) each property's model depends on, and the theorems tying each group to the model"""
 DEPS = {'C01': ['classes', 'dicts', 'simplify', 'shapes', 'lookup', 'values', 'insert'],
         'C02': ['data'],
-        'C03': ['classes', 'dicts', 'simplify', 'shapes', 'values', 'insert', 'wrapmerge'],
+        'C03': ['classes', 'dicts', 'simplify', 'shapes', 'values', 'insert', 'content', 'insertall', 'wrapmerge'],
         'C04': ['classes', 'dicts', 'simplify', 'shapes', 'values', 'subset', 'wrapsplit'],
-        'C05': ['classes', 'dicts', 'simplify', 'shapes', 'values', 'insert', 'subset', 'wrapsplit', 'wrapmerge'],
+        'C05': ['classes', 'dicts', 'simplify', 'shapes', 'values', 'insert', 'content', 'insertall', 'subset', 'wrapsplit', 'wrapmerge'],
         'C06': ['classes', 'simplify'],
         'C07': ['classes', 'dicts', 'simplify', 'shapes', 'valid'],
         'C08': ['classes', 'lookup'],
@@ -41,7 +41,8 @@ GROUP_THEOREMS = {
     'cli': ['cli_out_name_is_model'],
     'group': ['group_place_is_model', 'group_place_keeps_keys_distinct'],
     'filter': ['key_regex_filter_is_model'],
-    'insertall': ['insert_leaves_other_unchanged', 'insert_on_model_extension', 'insert_treats_keys_independently', 'insert_treats_keys_independently_on_model_extension'],
+    'insertall': ['insert_leaves_other_unchanged', 'insert_on_model_extension', 'insert_treats_keys_independently', 'insert_treats_keys_independently_on_model_extension',
+                  'insert_key_step_non_slice_is_model', 'insert_key_step_slice_is_model', 'insert_key_step_sample_is_model'],
     'content': ['filter_meta_filters_every_valid_dictionary', 'filter_meta_is_model', 'clear_slice_meta_is_model', 'get_keys_is_model'],
     'orient': ['check_voxel_order_is_model'],
     'phoenix': ['parse_phoenix_line_is_model', 'parse_phoenix_prot_is_model'],
